@@ -6,6 +6,7 @@ import pcommon
 from cxxheaderparser.simple import parse_string
 from cxxheaderparser.errors import CxxParseError
 
+TECHNIQUE = 'Lean 4: generic stream well-formedness theorem instantiated at the parser model, fold laws, kernel-decided dispatch tables regenerated from parse(); the per-form round trip is decided by the differential correspondence of the full parser model and an AST-first oracle (not a theorem)'
 LEAN_TARGET = "CxxModel.Props.C01"
 THEOREMS = ["Cxx.C01_dispatch", "Cxx.C01_keep_doxygen", "Cxx.C01_stream_well_formed", "Cxx.C01_fold_cons",
             "Cxx.C01_fold_append", "Cxx.dispatch_table_eq", "Cxx.rules_supported"]
